@@ -21,6 +21,8 @@ EXPLANATION = (
 
 
 def run(ctx: Ctx) -> None:
+    from ..rules import solvers as _slvf
+    _slvf.rule_frontinsert_owner(ctx)
     from ..rules import solvers as _slv4
     _slv4.rule_edge_roles(ctx)
     from .c02 import rule_index_space
@@ -61,6 +63,7 @@ def run(ctx: Ctx) -> None:
 
 
 KNOCKOUTS = [
+    Knockout("conversion-gates-through-front-insertion-helper", "graphiq/solvers/alternate_target_solver.py", sub_once("    score, circ = solver.result\n", "    score, circ = solver.result\n    for gate in []:\n        solver._add_one_qubit_gate(circ, [type(gate)], gate.register)\n"), "own.frontinsert", "outside TimeReversedSolver"),
     Knockout("measure-reset-target-read-from-emitter-edge", "graphiq/solvers/evolutionary_solver.py", sub_once('            target=circuit.dag.edges[edge1]["reg"],\n            target_type="p",\n            noise=self._identify_noise(\n                ops.MeasurementCNOTandReset', '            target=circuit.dag.edges[edge0]["reg"],\n            target_type="p",\n            noise=self._identify_noise(\n                ops.MeasurementCNOTandReset'), "move.edge-roles", "not taken from its edges"),
     Knockout("fixed-label-after-insertion", TRS, sub_nth('        gate.add_labels("Fixed")\n        circuit.insert_at(gate, [edge0, edge1])\n', '        circuit.insert_at(gate, [edge0, edge1])\n        gate.add_labels("Fixed")\n', 0), "typestate.fixed", "not labelled Fixed"),
     Knockout("measurement-position-photon-filter-or", EVO, sub_once('            if type(circuit.dag.nodes[edge[1]]["op"]) is not ops.MeasurementCNOTandReset\n            and type(circuit.dag.nodes[edge[0]]["op"]) is not ops.Input\n', '            if type(circuit.dag.nodes[edge[1]]["op"]) is not ops.MeasurementCNOTandReset\n            or type(circuit.dag.nodes[edge[0]]["op"]) is not ops.Input\n'), "filter.literals", "_select_possible_measurement_position"),
